@@ -16,13 +16,17 @@ pub mod h3x {
       relation r5(i64);
       relation r6(i64, Option<i64>, i64);
       relation r7(i64, Option<i64>);
-      r7(2, Some(v1.clone())) <-- r3(v0, v105, v1) if (v105.clone() == std::cmp::max(v0.clone(), 1)), r0(v106, v100) if (v106.clone() == v0.clone()), let v101 = std::cmp::min((v100.clone() + v100.clone()), 6), r1(v102, v103), r1(v107, v108) if (v107.clone() == (v0.clone() + v102.clone())) if let Some(v104) = v108.clone();
-      r7(v1, Some(v1.clone())) <-- r4(v0, v111), r1(v1, v109), r1(v112, v113) if (v112.clone() == (v0.clone() + v1.clone())) if let Some(v110) = v113.clone();
-      r7(v1, Some(v1.clone())) <-- r4(v0, v114), r2(v1);
-      r5(v1) <-- r1(v0, v120) if let Some(v1) = v120.clone(), r0(v2, v115), let v116 = std::cmp::min((v115.clone() + v115.clone()), 6), r1(v117, v118), r1(v121, v122) if (v121.clone() == (v2.clone() + v117.clone())) if let Some(v119) = v122.clone();
-      r7(v0, Some(v0.clone())) <-- r3(v0, v128, v129) if (v128.clone() == (v0.clone() + 1)) if (v129.clone() == v0.clone()), r0(v130, v123) if (v130.clone() == v0.clone()), let v124 = std::cmp::min((v123.clone() + v123.clone()), 6), r1(v125, v126), r1(v131, v132) if (v131.clone() == (v0.clone() + v125.clone())) if let Some(v127) = v132.clone(), r7(v1, v133) if (v133.clone() == None::<i64>);
-      r6(v1, Some(v1.clone()), 1) <-- r3(v0, v128, v129) if (v128.clone() == (v0.clone() + 1)) if (v129.clone() == v0.clone()), r0(v130, v123) if (v130.clone() == v0.clone()), let v124 = std::cmp::min((v123.clone() + v123.clone()), 6), r1(v125, v126), r1(v131, v132) if (v131.clone() == (v0.clone() + v125.clone())) if let Some(v127) = v132.clone(), r7(v1, v133) if (v133.clone() == None::<i64>);
-      r4(v1, v0) <-- r1(v0, v134) if let Some(v1) = v134.clone() if (v0.clone() < 2);
+      r6(v0, Some(1), v0) <-- r2(v0) if (v0.clone() != 4), r1(v104, v100) if (v104.clone() == v0.clone()), r1(v105, v106) if (v105.clone() == (v0.clone() + v0.clone())) if let Some(v101) = v106.clone(), r1(v107, v102) if (v107.clone() == v0.clone()), r1(v108, v109) if (v108.clone() == (v0.clone() + v0.clone())) if let Some(v103) = v109.clone();
+      r7(v1, Some(v1.clone())) <-- r4(v0, v112), r1(v113, v110) if (v113.clone() == v0.clone()), r1(v114, v115) if (v114.clone() == (v0.clone() + v0.clone())) if let Some(v111) = v115.clone(), r2(v1);
+      r7(v2, Some(v2.clone())) <-- r1(v0, v118) if let Some(v1) = v118.clone(), r1(v2, v116), r1(v119, v120) if (v119.clone() == (v1.clone() + v2.clone())) if let Some(v117) = v120.clone();
+      r7(3, None::<i64>) <-- r1(v0, v118) if let Some(v1) = v118.clone(), r1(v2, v116), r1(v119, v120) if (v119.clone() == (v1.clone() + v2.clone())) if let Some(v117) = v120.clone();
+      r7(v2, Some(v2.clone())) <-- r1(v0, v121) if let Some(v1) = v121.clone(), r3(v2, v122, v123) if (v122.clone() == (v0.clone() + v0.clone())) if (v123.clone() == v1.clone()) if (v2.clone() != 3);
+      r7(3, None::<i64>) <-- r1(v0, v121) if let Some(v1) = v121.clone(), r3(v2, v122, v123) if (v122.clone() == (v0.clone() + v0.clone())) if (v123.clone() == v1.clone()) if (v2.clone() != 3);
+      r7(v0, Some(v0.clone())) <-- r3(v0, v129, v130) if (v129.clone() == (v0.clone() + 1)) if (v130.clone() == v0.clone()), r0(v131, v124) if (v131.clone() == v0.clone()), let v125 = std::cmp::min((v124.clone() + v124.clone()), 6), r1(v126, v127), r1(v132, v133) if (v132.clone() == (v0.clone() + v126.clone())) if let Some(v128) = v133.clone(), r7(v1, v134) if (v134.clone() == None::<i64>);
+      r6(v1, Some(v1.clone()), 1) <-- r3(v0, v129, v130) if (v129.clone() == (v0.clone() + 1)) if (v130.clone() == v0.clone()), r0(v131, v124) if (v131.clone() == v0.clone()), let v125 = std::cmp::min((v124.clone() + v124.clone()), 6), r1(v126, v127), r1(v132, v133) if (v132.clone() == (v0.clone() + v126.clone())) if let Some(v128) = v133.clone(), r7(v1, v134) if (v134.clone() == None::<i64>);
+      r5((v1.clone() + 1)) <-- r3(v0, v145, v146) if (v145.clone() == v0.clone()) if (v146.clone() == (v0.clone() + 2)), r0(v1, v135), let v136 = std::cmp::min((v135.clone() + v135.clone()), 6), r1(v137, v138), r1(v147, v148) if (v147.clone() == (v1.clone() + v137.clone())) if let Some(v139) = v148.clone(), r0(v4, v140), let v141 = std::cmp::min((v140.clone() + v140.clone()), 6), r1(v142, v143), r1(v149, v150) if (v149.clone() == (v4.clone() + v142.clone())) if let Some(v144) = v150.clone(), if (v1.clone() < 5);
+      r5((v1.clone() + 1)) <-- r3(v0, v151, v152) if (v151.clone() == v0.clone()) if (v152.clone() == (v0.clone() + 2)), r4(v3, v1), r0(v4, v140), let v141 = std::cmp::min((v140.clone() + v140.clone()), 6), r1(v142, v143), r1(v153, v154) if (v153.clone() == (v4.clone() + v142.clone())) if let Some(v144) = v154.clone(), if (v1.clone() < 5);
+      r4(v1, v0) <-- r1(v0, v155) if let Some(v1) = v155.clone() if (v0.clone() < 2);
    }
    pub struct Inst { p: Prog, pool: Option<ascent::rayon::ThreadPool> }
    pub fn make(pool: Option<usize>) -> Box<dyn Driver> {
@@ -65,28 +69,25 @@ pub mod h7x {
       relation r1(i64, Option<i64>);
       relation r2(i64);
       relation r3(i64, i64, i64);
-      relation r4(i64, i64);
-      relation r5(i64, Option<i64>);
+      relation r4(i64, Option<i64>);
+      relation r5(i64, i64, i64);
       relation r6(i64, i64);
-      relation r7(i64);
-      r7(3) <-- r0(v0, v104) if (v104.clone() == 1), r4(v105, v106) if (v105.clone() == v0.clone()) if (v106.clone() == v0.clone()), r5(v100, v101), r6(v102, v107) if (v107.clone() == v0.clone()), r3(v108, v1, v109) if (v108.clone() == 3) if (v109.clone() == (v0.clone() + 2));
-      r6(v0, v0) <-- r0(v0, v104) if (v104.clone() == 1), r4(v105, v106) if (v105.clone() == v0.clone()) if (v106.clone() == v0.clone()), r5(v100, v101), r6(v102, v107) if (v107.clone() == v0.clone()), r3(v108, v1, v109) if (v108.clone() == 3) if (v109.clone() == (v0.clone() + 2));
-      r7(3) <-- r0(v0, v110) if (v110.clone() == 1), r4(v111, v112) if (v111.clone() == v0.clone()) if (v112.clone() == v0.clone()), r5(v103, v101), r3(v113, v1, v114) if (v113.clone() == 3) if (v114.clone() == (v0.clone() + 2));
-      r6(v0, v0) <-- r0(v0, v110) if (v110.clone() == 1), r4(v111, v112) if (v111.clone() == v0.clone()) if (v112.clone() == v0.clone()), r5(v103, v101), r3(v113, v1, v114) if (v113.clone() == 3) if (v114.clone() == (v0.clone() + 2));
-      r7(v1) <-- r1(v0, v115) if let Some(v1) = v115.clone(), r0(v2, v4);
-      r7(v1) <-- r1(v0, v116) if let Some(v1) = v116.clone(), r0(v2, v5);
-      r6(0, v0) <-- r4(v125, v0), r4(v1, v126) if (v126.clone() == v1.clone()), r5(v117, v118), r6(v119, v127) if (v127.clone() == v1.clone()), r4(v128, v129) if (v128.clone() == v1.clone()) if (v129.clone() == v1.clone()), r5(v121, v122), r6(v123, v130) if (v130.clone() == v1.clone());
-      r6(v0, std::cmp::min((v1.clone() + 0), 6)) <-- r4(v125, v0), r4(v1, v126) if (v126.clone() == v1.clone()), r5(v117, v118), r6(v119, v127) if (v127.clone() == v1.clone()), r4(v128, v129) if (v128.clone() == v1.clone()) if (v129.clone() == v1.clone()), r5(v121, v122), r6(v123, v130) if (v130.clone() == v1.clone());
-      r6(0, v0) <-- r4(v131, v0), r4(v1, v132) if (v132.clone() == v1.clone()), r5(v117, v118), r6(v119, v133) if (v133.clone() == v1.clone()), r4(v134, v135) if (v134.clone() == v1.clone()) if (v135.clone() == v1.clone()), r5(v124, v122);
-      r6(v0, std::cmp::min((v1.clone() + 0), 6)) <-- r4(v131, v0), r4(v1, v132) if (v132.clone() == v1.clone()), r5(v117, v118), r6(v119, v133) if (v133.clone() == v1.clone()), r4(v134, v135) if (v134.clone() == v1.clone()) if (v135.clone() == v1.clone()), r5(v124, v122);
-      r6(0, v0) <-- r4(v136, v0), r4(v1, v137) if (v137.clone() == v1.clone()), r5(v120, v118), r4(v138, v139) if (v138.clone() == v1.clone()) if (v139.clone() == v1.clone()), r5(v121, v122), r6(v123, v140) if (v140.clone() == v1.clone());
-      r6(v0, std::cmp::min((v1.clone() + 0), 6)) <-- r4(v136, v0), r4(v1, v137) if (v137.clone() == v1.clone()), r5(v120, v118), r4(v138, v139) if (v138.clone() == v1.clone()) if (v139.clone() == v1.clone()), r5(v121, v122), r6(v123, v140) if (v140.clone() == v1.clone());
-      r6(0, v0) <-- r4(v141, v0), r4(v1, v142) if (v142.clone() == v1.clone()), r5(v120, v118), r4(v143, v144) if (v143.clone() == v1.clone()) if (v144.clone() == v1.clone()), r5(v124, v122);
-      r6(v0, std::cmp::min((v1.clone() + 0), 6)) <-- r4(v141, v0), r4(v1, v142) if (v142.clone() == v1.clone()), r5(v120, v118), r4(v143, v144) if (v143.clone() == v1.clone()) if (v144.clone() == v1.clone()), r5(v124, v122);
-      r6((v0.clone() + 1), (v1.clone() + 1)) <-- r2(v0), r6(v1, v145), if (v1.clone() == 2), if (v0.clone() < 5), if (v1.clone() < 5);
-      r7(3) <-- r0(v0, v1), r6(v2, v146), if (v2.clone() == 2), r6(v148, v147) if (v148.clone() == v2.clone()), if (v2.clone() == 2);
-      r5(0, None::<i64>) <-- r1(v0, v149) if (v149.clone() == None::<i64>);
-      r7(3);
+      r5(v1, 1, v2) <-- r2(v0) if (v0.clone() < 0), r4(v1, v102) if let Some(v100) = v102.clone(), if (v100.clone() < v0.clone()), r4(v2, v103) if let Some(v101) = v103.clone(), if (v101.clone() < v0.clone());
+      r5(1, v0, std::cmp::min(std::cmp::max(v3.clone(), 1), 6)) <-- r1(v0, v1), r3(v104, v2, v106) if (v106.clone() == v2.clone()), if (v2.clone() == 3), r3(v105, v107, v3) if (v107.clone() == v2.clone()), if (v2.clone() == 3);
+      r5(v0, 0, v3) <-- r1(v0, v1), r3(v104, v2, v106) if (v106.clone() == v2.clone()), if (v2.clone() == 3), r3(v105, v107, v3) if (v107.clone() == v2.clone()), if (v2.clone() == 3);
+      r5(1, v1, std::cmp::min(std::cmp::max(v1.clone(), 1), 6)) <-- r4(v0, v109) if let Some(v1) = v109.clone(), r4(v2, v110) if let Some(v108) = v110.clone(), if (v108.clone() < v0.clone());
+      r5(v0, v2, v0) <-- r4(v0, v109) if let Some(v1) = v109.clone(), r4(v2, v110) if let Some(v108) = v110.clone(), if (v108.clone() < v0.clone());
+      r5(v0, v0, std::cmp::min((v0.clone() + v1.clone()), 6)) <-- r2(v0), r3(v111, v112, v1) if (v112.clone() == v0.clone()), if (v0.clone() == 3);
+      r6(v0, v0) <-- r2(v0), r3(v111, v112, v1) if (v112.clone() == v0.clone()), if (v0.clone() == 3);
+      r5(v1, v1, std::cmp::min((v0.clone() + v1.clone()), 6)) <-- r3(v0, v1, v114) if (v114.clone() == (v1.clone() + v0.clone())), r4(v2, v115) if let Some(v113) = v115.clone(), if (v113.clone() < v1.clone());
+      r6(v1, v1) <-- r3(v0, v1, v114) if (v114.clone() == (v1.clone() + v0.clone())), r4(v2, v115) if let Some(v113) = v115.clone(), if (v113.clone() < v1.clone());
+      r5(v1, v1, std::cmp::min((v0.clone() + v1.clone()), 6)) <-- r2(v0), r4(v1, v122) if let Some(v116) = v122.clone(), r6(v123, v117), if (v117.clone() < v116.clone()), r3(v121, v120, v119), if (v120.clone() == 3), if (v1.clone() < 5);
+      r6(v1, v1) <-- r2(v0), r4(v1, v122) if let Some(v116) = v122.clone(), r6(v123, v117), if (v117.clone() < v116.clone()), r3(v121, v120, v119), if (v120.clone() == 3), if (v1.clone() < 5);
+      r5(v1, v1, std::cmp::min((v0.clone() + v1.clone()), 6)) <-- r2(v0), r3(v1, v124, v116) if (v124.clone() == std::cmp::max(v0.clone(), 3)), if let Some(v118) = Some(std::cmp::max(v0.clone(), 3)), r3(v121, v120, v119), if (v120.clone() == 3), if (v1.clone() < 5);
+      r6(v1, v1) <-- r2(v0), r3(v1, v124, v116) if (v124.clone() == std::cmp::max(v0.clone(), 3)), if let Some(v118) = Some(std::cmp::max(v0.clone(), 3)), r3(v121, v120, v119), if (v120.clone() == 3), if (v1.clone() < 5);
+      r5(v1, v1, std::cmp::min((v0.clone() + v1.clone()), 6)) <-- r2(v0), r3(v3, v125, v1) if (v125.clone() == v3.clone());
+      r6(v1, v1) <-- r2(v0), r3(v3, v125, v1) if (v125.clone() == v3.clone());
+      r4(v0, Some(v0.clone())) <-- r1(v126, v127) if let Some(v0) = v127.clone() if (v0.clone() < 0);
    }
    pub struct Inst { p: Prog, pool: Option<ascent::rayon::ThreadPool> }
    pub fn make(pool: Option<usize>) -> Box<dyn Driver> {
@@ -101,10 +102,9 @@ pub mod h7x {
          1 => { let v: Vec<(i64,Option<i64>,)> = parse_rows(rows)?; if append { self.p.r1.extend(v) } else { self.p.r1 = v } },
          2 => { let v: Vec<(i64,)> = parse_rows(rows)?; if append { self.p.r2.extend(v) } else { self.p.r2 = v } },
          3 => { let v: Vec<(i64,i64,i64,)> = parse_rows(rows)?; if append { self.p.r3.extend(v) } else { self.p.r3 = v } },
-         4 => { let v: Vec<(i64,i64,)> = parse_rows(rows)?; if append { self.p.r4.extend(v) } else { self.p.r4 = v } },
-         5 => { let v: Vec<(i64,Option<i64>,)> = parse_rows(rows)?; if append { self.p.r5.extend(v) } else { self.p.r5 = v } },
+         4 => { let v: Vec<(i64,Option<i64>,)> = parse_rows(rows)?; if append { self.p.r4.extend(v) } else { self.p.r4 = v } },
+         5 => { let v: Vec<(i64,i64,i64,)> = parse_rows(rows)?; if append { self.p.r5.extend(v) } else { self.p.r5 = v } },
          6 => { let v: Vec<(i64,i64,)> = parse_rows(rows)?; if append { self.p.r6.extend(v) } else { self.p.r6 = v } },
-         7 => { let v: Vec<(i64,)> = parse_rows(rows)?; if append { self.p.r7.extend(v) } else { self.p.r7 = v } },
             _ => return None,
          }
          Some(())
@@ -112,7 +112,7 @@ pub mod h7x {
       fn run(&mut self) { match &self.pool { Some(pl) => { let p = &mut self.p; pl.install(|| p.run()) }, None => self.p.run() } }
       fn run_here(&mut self) { self.p.run() }
       fn run_timeout(&mut self, k: usize) -> Option<bool> { let _ = k; None }
-      fn dump(&self) -> String { vec![dump_rel(0, self.p.r0.iter().map(Row::render).collect()), dump_rel(1, self.p.r1.iter().map(Row::render).collect()), dump_rel(2, self.p.r2.iter().map(Row::render).collect()), dump_rel(3, self.p.r3.iter().map(Row::render).collect()), dump_rel(4, self.p.r4.iter().map(Row::render).collect()), dump_rel(5, self.p.r5.iter().map(Row::render).collect()), dump_rel(6, self.p.r6.iter().map(Row::render).collect()), dump_rel(7, self.p.r7.iter().map(Row::render).collect())].join(" | ") }
+      fn dump(&self) -> String { vec![dump_rel(0, self.p.r0.iter().map(Row::render).collect()), dump_rel(1, self.p.r1.iter().map(Row::render).collect()), dump_rel(2, self.p.r2.iter().map(Row::render).collect()), dump_rel(3, self.p.r3.iter().map(Row::render).collect()), dump_rel(4, self.p.r4.iter().map(Row::render).collect()), dump_rel(5, self.p.r5.iter().map(Row::render).collect()), dump_rel(6, self.p.r6.iter().map(Row::render).collect())].join(" | ") }
       fn iters(&self) -> String { format!("iters {}", self.p.scc_iters.iter().map(|x| x.to_string()).collect::<Vec<_>>().join(" ")) }
    }
 }
@@ -129,23 +129,37 @@ pub mod h11x {
       relation r1(i64, Option<i64>);
       relation r2(i64);
       relation r3(i64, i64, i64);
-      relation r4(i64, i64);
-      relation r5(i64);
-      relation r6(i64);
-      relation r7(i64, i64);
-      relation r8(i64, i64);
-      r7(1, std::cmp::min((v0.clone() + 0), 6)) <-- r0(v0, v1), r5(v102) if (v102.clone() == v0.clone()), r1(v100, v103) if (v103.clone() == Some(v100.clone())), if (v0.clone() != 5), r5(v104) if (v104.clone() == v0.clone()), r1(v101, v105) if (v105.clone() == Some(v101.clone())), if (v0.clone() != 5);
-      r8(v1, v1) <-- r0(v0, v1), r5(v102) if (v102.clone() == v0.clone()), r1(v100, v103) if (v103.clone() == Some(v100.clone())), if (v0.clone() != 5), r5(v104) if (v104.clone() == v0.clone()), r1(v101, v105) if (v105.clone() == Some(v101.clone())), if (v0.clone() != 5);
-      r7(v0, std::cmp::min(std::cmp::min(v0.clone(), 2), 6)) <-- r8(v0, v107) if (v107.clone() == v0.clone()), r5(v108) if (v108.clone() == v0.clone()), r1(v106, v109) if (v109.clone() == Some(v106.clone())), if (v0.clone() != 5);
-      r7(v0, std::cmp::min(std::cmp::max(v0.clone(), 1), 6)) <-- r2(v111), r5(v0), r1(v110, v112) if (v112.clone() == Some(v110.clone())), if (v0.clone() != 5);
-      r7(1, std::cmp::min(std::cmp::min(v0.clone(), 3), 6)) <-- r5(v0), r5(v1), r1(v113, v115) if (v115.clone() == Some(v113.clone())), if (v1.clone() != 5), r5(v2), r1(v114, v116) if (v116.clone() == Some(v114.clone())), if (v2.clone() != 5);
-      r8(v1, v2) <-- r5(v0), r5(v1), r1(v113, v115) if (v115.clone() == Some(v113.clone())), if (v1.clone() != 5), r5(v2), r1(v114, v116) if (v116.clone() == Some(v114.clone())), if (v2.clone() != 5);
-      r7(v0, std::cmp::min(std::cmp::min(v0.clone(), 1), 6)) <-- r5(v118) if (v118.clone() == 0), r5(v0), r1(v117, v119) if (v119.clone() == Some(v117.clone())), if (v0.clone() != 5);
-      r6(v0) <-- r5(v118) if (v118.clone() == 0), r5(v0), r1(v117, v119) if (v119.clone() == Some(v117.clone())), if (v0.clone() != 5);
-      r7(v0, std::cmp::min(std::cmp::min(v0.clone(), 1), 6)) <-- r5(v120) if (v120.clone() == 0), r7(v121, v0);
-      r6(v0) <-- r5(v120) if (v120.clone() == 0), r7(v121, v0);
-      r5((v0.clone() + 1)) <-- r3(v0, v122, v123) if (v122.clone() == std::cmp::min(v0.clone(), 3)), if (v0.clone() < 5);
-      r7(1, 0);
+      relation r4(i64);
+      relation r5(i64, i64, i64);
+      relation r6(i64, Option<i64>);
+      relation r7(i64, i64, i64);
+      r7(3, std::cmp::min((v1.clone() + v1.clone()), 6), 3) <-- r7(v102, v0, v1), r7(v2, v103, v100) if (v103.clone() == std::cmp::max(v2.clone(), 0)), r7(v104, v105, v101) if (v104.clone() == v2.clone()) if (v105.clone() == std::cmp::max(v2.clone(), 0));
+      r5(v0, v0, v0) <-- r7(v102, v0, v1), r7(v2, v103, v100) if (v103.clone() == std::cmp::max(v2.clone(), 0)), r7(v104, v105, v101) if (v104.clone() == v2.clone()) if (v105.clone() == std::cmp::max(v2.clone(), 0));
+      r5(2, 0, v0) <-- r7(v102, v0, v1), r7(v2, v103, v100) if (v103.clone() == std::cmp::max(v2.clone(), 0)), r7(v104, v105, v101) if (v104.clone() == v2.clone()) if (v105.clone() == std::cmp::max(v2.clone(), 0));
+      r7(3, std::cmp::min((v1.clone() + v1.clone()), 6), 3) <-- r7(v106, v0, v1), r7(v2, v107, v100) if (v107.clone() == std::cmp::max(v2.clone(), 0)), r6(v108, v109) if (v108.clone() == v2.clone()) if let Some(v101) = v109.clone();
+      r5(v0, v0, v0) <-- r7(v106, v0, v1), r7(v2, v107, v100) if (v107.clone() == std::cmp::max(v2.clone(), 0)), r6(v108, v109) if (v108.clone() == v2.clone()) if let Some(v101) = v109.clone();
+      r5(2, 0, v0) <-- r7(v106, v0, v1), r7(v2, v107, v100) if (v107.clone() == std::cmp::max(v2.clone(), 0)), r6(v108, v109) if (v108.clone() == v2.clone()) if let Some(v101) = v109.clone();
+      r7(3, std::cmp::min((v1.clone() + v1.clone()), 6), 3) <-- r7(v110, v0, v1), r6(v2, v111) if let Some(v100) = v111.clone(), r7(v112, v113, v101) if (v112.clone() == v2.clone()) if (v113.clone() == std::cmp::max(v2.clone(), 0));
+      r5(v0, v0, v0) <-- r7(v110, v0, v1), r6(v2, v111) if let Some(v100) = v111.clone(), r7(v112, v113, v101) if (v112.clone() == v2.clone()) if (v113.clone() == std::cmp::max(v2.clone(), 0));
+      r5(2, 0, v0) <-- r7(v110, v0, v1), r6(v2, v111) if let Some(v100) = v111.clone(), r7(v112, v113, v101) if (v112.clone() == v2.clone()) if (v113.clone() == std::cmp::max(v2.clone(), 0));
+      r7(3, std::cmp::min((v1.clone() + v1.clone()), 6), 3) <-- r7(v114, v0, v1), r6(v2, v115) if let Some(v100) = v115.clone(), r6(v116, v117) if (v116.clone() == v2.clone()) if let Some(v101) = v117.clone();
+      r5(v0, v0, v0) <-- r7(v114, v0, v1), r6(v2, v115) if let Some(v100) = v115.clone(), r6(v116, v117) if (v116.clone() == v2.clone()) if let Some(v101) = v117.clone();
+      r5(2, 0, v0) <-- r7(v114, v0, v1), r6(v2, v115) if let Some(v100) = v115.clone(), r6(v116, v117) if (v116.clone() == v2.clone()) if let Some(v101) = v117.clone();
+      r7(3, std::cmp::min(std::cmp::max(v1.clone(), 1), 6), 3) <-- r7(v0, v119, v120) if (v120.clone() == v0.clone()), r7(v1, v121, v118) if (v121.clone() == std::cmp::max(v1.clone(), 0));
+      r5(v1, v1, v1) <-- r7(v0, v119, v120) if (v120.clone() == v0.clone()), r7(v1, v121, v118) if (v121.clone() == std::cmp::max(v1.clone(), 0));
+      r5(2, 0, v1) <-- r7(v0, v119, v120) if (v120.clone() == v0.clone()), r7(v1, v121, v118) if (v121.clone() == std::cmp::max(v1.clone(), 0));
+      r7(3, std::cmp::min(std::cmp::max(v1.clone(), 1), 6), 3) <-- r7(v0, v122, v123) if (v123.clone() == v0.clone()), r6(v1, v124) if let Some(v118) = v124.clone();
+      r5(v1, v1, v1) <-- r7(v0, v122, v123) if (v123.clone() == v0.clone()), r6(v1, v124) if let Some(v118) = v124.clone();
+      r5(2, 0, v1) <-- r7(v0, v122, v123) if (v123.clone() == v0.clone()), r6(v1, v124) if let Some(v118) = v124.clone();
+      r7(v0, v0, v1) <-- r2(v0) if (v0.clone() == 4), r1(v131, v125) if (v131.clone() == v0.clone()), r0(v132, v130) if (v132.clone() == v0.clone()), if (std::cmp::min(v0.clone(), 4) <= 3), r1(v1, v2);
+      r7(v0, v0, v1) <-- r2(v0) if (v0.clone() == 4), r7(v126, v133, v127) if (v133.clone() == v0.clone()), agg () = not() in r0(std::cmp::min(v0.clone(), 4), _), r0(v134, v130) if (v134.clone() == v0.clone()), if (std::cmp::min(v0.clone(), 4) <= 3), r1(v1, v2);
+      r7(v0, v0, v1) <-- r2(v0) if (v0.clone() == 4), r5(v135, v127, v126) if (v135.clone() == v0.clone()), r5(v136, v128, v129) if (v136.clone() == 2), agg () = not() in r0(std::cmp::min(v0.clone(), 4), _), r0(v137, v130) if (v137.clone() == v0.clone()), if (std::cmp::min(v0.clone(), 4) <= 3), r1(v1, v2);
+      r7(v0, v0, v1) <-- r2(v0) if (v0.clone() == 4), r7(v127, v138, v126) if (v138.clone() == v0.clone()), agg () = not() in r0(std::cmp::min(v0.clone(), 4), _), r0(v139, v130) if (v139.clone() == v0.clone()), if (std::cmp::min(v0.clone(), 4) <= 3), r1(v1, v2);
+      r7(1, 1, v0) <-- r1(v0, v142), r7(v143, v144, v140) if (v143.clone() == v0.clone()) if (v144.clone() == std::cmp::max(v0.clone(), 0)), r7(v145, v146, v141) if (v145.clone() == v0.clone()) if (v146.clone() == std::cmp::max(v0.clone(), 0));
+      r7(1, 1, v0) <-- r1(v0, v147), r7(v148, v149, v140) if (v148.clone() == v0.clone()) if (v149.clone() == std::cmp::max(v0.clone(), 0)), r6(v150, v151) if (v150.clone() == v0.clone()) if let Some(v141) = v151.clone();
+      r7(1, 1, v0) <-- r1(v0, v152), r6(v153, v154) if (v153.clone() == v0.clone()) if let Some(v140) = v154.clone(), r7(v155, v156, v141) if (v155.clone() == v0.clone()) if (v156.clone() == std::cmp::max(v0.clone(), 0));
+      r7(1, 1, v0) <-- r1(v0, v157), r6(v158, v159) if (v158.clone() == v0.clone()) if let Some(v140) = v159.clone(), r6(v160, v161) if (v160.clone() == v0.clone()) if let Some(v141) = v161.clone();
+      r4(v0) <-- r1(v0, v1);
    }
    pub struct Inst { p: Prog, pool: Option<ascent::rayon::ThreadPool> }
    pub fn make(pool: Option<usize>) -> Box<dyn Driver> {
@@ -160,11 +174,10 @@ pub mod h11x {
          1 => { let v: Vec<(i64,Option<i64>,)> = parse_rows(rows)?; if append { self.p.r1.extend(v) } else { self.p.r1 = v } },
          2 => { let v: Vec<(i64,)> = parse_rows(rows)?; if append { self.p.r2.extend(v) } else { self.p.r2 = v } },
          3 => { let v: Vec<(i64,i64,i64,)> = parse_rows(rows)?; if append { self.p.r3.extend(v) } else { self.p.r3 = v } },
-         4 => { let v: Vec<(i64,i64,)> = parse_rows(rows)?; if append { self.p.r4.extend(v) } else { self.p.r4 = v } },
-         5 => { let v: Vec<(i64,)> = parse_rows(rows)?; if append { self.p.r5.extend(v) } else { self.p.r5 = v } },
-         6 => { let v: Vec<(i64,)> = parse_rows(rows)?; if append { self.p.r6.extend(v) } else { self.p.r6 = v } },
-         7 => { let v: Vec<(i64,i64,)> = parse_rows(rows)?; if append { self.p.r7.extend(v) } else { self.p.r7 = v } },
-         8 => { let v: Vec<(i64,i64,)> = parse_rows(rows)?; if append { self.p.r8.extend(v) } else { self.p.r8 = v } },
+         4 => { let v: Vec<(i64,)> = parse_rows(rows)?; if append { self.p.r4.extend(v) } else { self.p.r4 = v } },
+         5 => { let v: Vec<(i64,i64,i64,)> = parse_rows(rows)?; if append { self.p.r5.extend(v) } else { self.p.r5 = v } },
+         6 => { let v: Vec<(i64,Option<i64>,)> = parse_rows(rows)?; if append { self.p.r6.extend(v) } else { self.p.r6 = v } },
+         7 => { let v: Vec<(i64,i64,i64,)> = parse_rows(rows)?; if append { self.p.r7.extend(v) } else { self.p.r7 = v } },
             _ => return None,
          }
          Some(())
@@ -172,13 +185,13 @@ pub mod h11x {
       fn run(&mut self) { match &self.pool { Some(pl) => { let p = &mut self.p; pl.install(|| p.run()) }, None => self.p.run() } }
       fn run_here(&mut self) { self.p.run() }
       fn run_timeout(&mut self, k: usize) -> Option<bool> { let _ = k; None }
-      fn dump(&self) -> String { vec![dump_rel(0, self.p.r0.iter().map(Row::render).collect()), dump_rel(1, self.p.r1.iter().map(Row::render).collect()), dump_rel(2, self.p.r2.iter().map(Row::render).collect()), dump_rel(3, self.p.r3.iter().map(Row::render).collect()), dump_rel(4, self.p.r4.iter().map(Row::render).collect()), dump_rel(5, self.p.r5.iter().map(Row::render).collect()), dump_rel(6, self.p.r6.iter().map(Row::render).collect()), dump_rel(7, self.p.r7.iter().map(Row::render).collect()), dump_rel(8, self.p.r8.iter().map(Row::render).collect())].join(" | ") }
+      fn dump(&self) -> String { vec![dump_rel(0, self.p.r0.iter().map(Row::render).collect()), dump_rel(1, self.p.r1.iter().map(Row::render).collect()), dump_rel(2, self.p.r2.iter().map(Row::render).collect()), dump_rel(3, self.p.r3.iter().map(Row::render).collect()), dump_rel(4, self.p.r4.iter().map(Row::render).collect()), dump_rel(5, self.p.r5.iter().map(Row::render).collect()), dump_rel(6, self.p.r6.iter().map(Row::render).collect()), dump_rel(7, self.p.r7.iter().map(Row::render).collect())].join(" | ") }
       fn iters(&self) -> String { format!("iters {}", self.p.scc_iters.iter().map(|x| x.to_string()).collect::<Vec<_>>().join(" ")) }
    }
 }
 
 #[allow(unused, non_snake_case, clippy::all)]
-pub mod a3x {
+pub mod a1x {
    use ascent::*;
    use ascent::aggregators::*;
    use ascent::lattice::{Dual, set::Set};
@@ -189,47 +202,7 @@ pub mod a3x {
       relation r1(i64);
       relation r2(i64, i64);
       relation r3(i64);
-      r2(v0, v2) <-- r1(v0), r1(v100), r0(v101, v2) if (v101.clone() != 0);
-      r3(v0) <-- r2(v0, v102);
-   }
-   pub struct Inst { p: Prog, pool: Option<ascent::rayon::ThreadPool> }
-   pub fn make(pool: Option<usize>) -> Box<dyn Driver> {
-      let pool = pool.map(|n| ascent::rayon::ThreadPoolBuilder::new().num_threads(n).build().unwrap());
-      let p = match &pool { Some(pl) => pl.install(|| Default::default()), None => Default::default() };
-      Box::new(Inst { p, pool })
-   }
-   impl Driver for Inst {
-      fn load(&mut self, rel: usize, rows: &[Sexp], append: bool) -> Option<()> {
-         match rel {
-         0 => { let v: Vec<(i64,i64,)> = parse_rows(rows)?; if append { self.p.r0.extend(v) } else { self.p.r0 = v } },
-         1 => { let v: Vec<(i64,)> = parse_rows(rows)?; if append { self.p.r1.extend(v) } else { self.p.r1 = v } },
-         2 => { let v: Vec<(i64,i64,)> = parse_rows(rows)?; if append { self.p.r2.extend(v) } else { self.p.r2 = v } },
-         3 => { let v: Vec<(i64,)> = parse_rows(rows)?; if append { self.p.r3.extend(v) } else { self.p.r3 = v } },
-            _ => return None,
-         }
-         Some(())
-      }
-      fn run(&mut self) { match &self.pool { Some(pl) => { let p = &mut self.p; pl.install(|| p.run()) }, None => self.p.run() } }
-      fn run_here(&mut self) { self.p.run() }
-      fn run_timeout(&mut self, k: usize) -> Option<bool> { let _ = k; None }
-      fn dump(&self) -> String { vec![dump_rel(0, self.p.r0.iter().map(Row::render).collect()), dump_rel(1, self.p.r1.iter().map(Row::render).collect()), dump_rel(2, self.p.r2.iter().map(Row::render).collect()), dump_rel(3, self.p.r3.iter().map(Row::render).collect())].join(" | ") }
-      fn iters(&self) -> String { format!("iters {}", self.p.scc_iters.iter().map(|x| x.to_string()).collect::<Vec<_>>().join(" ")) }
-   }
-}
-
-#[allow(unused, non_snake_case, clippy::all)]
-pub mod e3x {
-   use ascent::*;
-   use ascent::aggregators::*;
-   use ascent::lattice::{Dual, set::Set};
-   use crate::common::*;
-   ascent! {
-      pub struct Prog;
-      relation r0(i64, i64);
-      relation r1(i64);
-      relation r2(i64, i64);
-      relation r3(i64);
-      r2(v0, v1) <-- r1(v0), r0(v100, v1), if ((v100.clone() * (v0.clone() + 2)) < 4);
+      r2(v0, v1) <-- r1(v0), r0(v100, v1) if (1 < v1.clone());
       r3(v0) <-- r2(v0, v101);
    }
    pub struct Inst { p: Prog, pool: Option<ascent::rayon::ThreadPool> }
@@ -258,7 +231,47 @@ pub mod e3x {
 }
 
 #[allow(unused, non_snake_case, clippy::all)]
-pub mod o2x {
+pub mod e1x {
+   use ascent::*;
+   use ascent::aggregators::*;
+   use ascent::lattice::{Dual, set::Set};
+   use crate::common::*;
+   ascent! {
+      pub struct Prog;
+      relation r0(i64, i64);
+      relation r1(i64);
+      relation r2(i64, i64);
+      relation r3(i64);
+      r2(v0, v1) <-- r1(v0), r0(v100, v1), if ((6 - (v0.clone() + 2)) < 8);
+      r3(v0) <-- r2(v0, v101);
+   }
+   pub struct Inst { p: Prog, pool: Option<ascent::rayon::ThreadPool> }
+   pub fn make(pool: Option<usize>) -> Box<dyn Driver> {
+      let pool = pool.map(|n| ascent::rayon::ThreadPoolBuilder::new().num_threads(n).build().unwrap());
+      let p = match &pool { Some(pl) => pl.install(|| Default::default()), None => Default::default() };
+      Box::new(Inst { p, pool })
+   }
+   impl Driver for Inst {
+      fn load(&mut self, rel: usize, rows: &[Sexp], append: bool) -> Option<()> {
+         match rel {
+         0 => { let v: Vec<(i64,i64,)> = parse_rows(rows)?; if append { self.p.r0.extend(v) } else { self.p.r0 = v } },
+         1 => { let v: Vec<(i64,)> = parse_rows(rows)?; if append { self.p.r1.extend(v) } else { self.p.r1 = v } },
+         2 => { let v: Vec<(i64,i64,)> = parse_rows(rows)?; if append { self.p.r2.extend(v) } else { self.p.r2 = v } },
+         3 => { let v: Vec<(i64,)> = parse_rows(rows)?; if append { self.p.r3.extend(v) } else { self.p.r3 = v } },
+            _ => return None,
+         }
+         Some(())
+      }
+      fn run(&mut self) { match &self.pool { Some(pl) => { let p = &mut self.p; pl.install(|| p.run()) }, None => self.p.run() } }
+      fn run_here(&mut self) { self.p.run() }
+      fn run_timeout(&mut self, k: usize) -> Option<bool> { let _ = k; None }
+      fn dump(&self) -> String { vec![dump_rel(0, self.p.r0.iter().map(Row::render).collect()), dump_rel(1, self.p.r1.iter().map(Row::render).collect()), dump_rel(2, self.p.r2.iter().map(Row::render).collect()), dump_rel(3, self.p.r3.iter().map(Row::render).collect())].join(" | ") }
+      fn iters(&self) -> String { format!("iters {}", self.p.scc_iters.iter().map(|x| x.to_string()).collect::<Vec<_>>().join(" ")) }
+   }
+}
+
+#[allow(unused, non_snake_case, clippy::all)]
+pub mod o0x {
    use ascent::*;
    use ascent::aggregators::*;
    use ascent::lattice::{Dual, set::Set};
@@ -269,7 +282,7 @@ pub mod o2x {
       relation r1(i64);
       relation r2(i64, i64);
       relation r3(i64);
-      r3(v0) <-- r1(v0), r0(v101, v102) if (v101.clone() == v0.clone()) if let Some(v100) = v102.clone(), if (v100.clone() <= 3);
+      r3(v0) <-- r1(v0), r0(v100, v101) if (v100.clone() == v0.clone()) if (v101.clone() == None::<i64>);
       r2(v0, v0) <-- r3(v0);
    }
    pub struct Inst { p: Prog, pool: Option<ascent::rayon::ThreadPool> }
@@ -298,5 +311,5 @@ pub mod o2x {
 }
 
 fn main() {
-   common::main_loop(&[("h3x", h3x::make as common::Factory), ("h7x", h7x::make as common::Factory), ("h11x", h11x::make as common::Factory), ("a3x", a3x::make as common::Factory), ("e3x", e3x::make as common::Factory), ("o2x", o2x::make as common::Factory)]);
+   common::main_loop(&[("h3x", h3x::make as common::Factory), ("h7x", h7x::make as common::Factory), ("h11x", h11x::make as common::Factory), ("a1x", a1x::make as common::Factory), ("e1x", e1x::make as common::Factory), ("o0x", o0x::make as common::Factory)]);
 }
